@@ -32,6 +32,8 @@ CLAUSES = {
     5: "total OLT (accounts + fee pool) changed",
     6: "the EVM view of a balance differs from the native record",
     7: "executed although its nonce is not the account's nonce",
+    9: "the nonce of an account other than the sender changed (other than a created contract / a self-destructed account)",
+    10: "the same signed transaction was executed a second time",
     8: "executed although Validate refuses it (wrong chain id / signer, price below the minimum fee, negative amount, bad memo, ...)",
 }
 MISMATCH = {1: "verdict (code) differs", 2: "gas used differs", 3: "ledger after the transaction differs", 4: "CheckTx acceptance differs"}
@@ -178,6 +180,9 @@ def run(ctx):
         "traces_validated_against_impl": steps,
         "generator_classes": dict(sorted(gen.items())), "outcomes": outcomes, "check_vs_deliver": checks,
         "evm_view_reads": views, "contracts_deployed": contracts,
+        "executed_leaving_sender_at_exactly_zero": sum(rep["SenderZero"] for job, rep, st in runs),
+        "zero_value_transfers_to_drained_accounts_with_nonce": sum(rep["ZeroToDrained"] for job, rep, st in runs),
+        "replays_of_a_drained_accounts_old_transactions": sum(rep["Classes"].get(k, 0) for job, rep, st in runs for k in rep["Classes"] if "drain-replay" in k),
         "corpus_histories": [j[0] for j in cjobs],
         "model_mismatches": len(mms), "monitor_violations": len(pvs),
         "monitor_violations_by_clause": {str(c): sum(1 for x in pvs if x[2] == c) for c in sorted({x[2] for x in pvs})},
